@@ -19,6 +19,11 @@ global size_of usize == 8;
 //@include spec/state_specs.rs
 //@include spec/arith_specs.rs
 //@include spec/cursor_specs.rs
+//@include spec/lit_specs.rs
+// the character-level text model (byte offsets, boundaries) for the one word that slices a string: hex>bitstr
+#[verifier::external_body] pub struct CharIdx { _p: u8 }
+//@include preamble/lex_model.rs
+//@include spec/lex_specs.rs
 
 pub type Xstate = State;
 #[verifier::external_body] fn verif_lit_xstr() -> Xstr { unimplemented!() }
@@ -243,6 +248,30 @@ impl Bitstr {
 // `Cell::Str(Xstr::from(x))` (src/cell.rs): ASSUMED one-liner over the arcstr conversion
 impl From<String> for Cell { #[verifier::external_body] fn from(x: String) -> (r: Cell) ensures r is Str && xstr_chars(r->Str_0) == x@ { unimplemented!() } }
 //@use cursor.fns ::bitstr_to_hex
+// `&s` where a `&str` is expected (ArcStr: Deref<Target = str>): the characters of the text
+impl core::ops::Deref for Xstr { type Target = str; #[verifier::external_body] fn deref(&self) -> (r: &str) ensures r@ == xtext(*self) { unimplemented!() } }
+impl Xstr {
+    // ArcStr::substr(a..): to the end of the text; panics unless `a` is a character boundary inside it
+    #[verifier::external_body]
+    pub fn substr_from(&self, a: usize) -> (t: Xsubstr)
+        requires a <= blen(xtext(*self)), is_boundary(xtext(*self), a as int)
+    { unimplemented!() }
+}
+// characters that are blanks or hex digits are ASCII: one byte each, so a character index is a byte offset
+proof fn lemma_hex_prefix_ascii(s: Seq<char>, n: int)
+    requires 0 <= n <= s.len(), hex_ok(s, n)
+    ensures off(s, n) == n
+    decreases n
+{
+    if n > 0 {
+        lemma_hex_prefix_ascii(s, n - 1);
+        let c = s[n - 1];
+        assert(is_ws(c) || hexval(c) is Some);
+        assert(cu(c) < 0x80);
+        assert(ulen(c) == 1);
+    }
+}
+//@use cursor.fns ::hex_to_bitstr
 // the memchr crate's substring search (dependency; ASSUMED): the first occurrence, if any
 pub mod memmem {
     use super::*;
@@ -497,6 +526,7 @@ fn lemma_zero85_pair(xs: &mut State)
 //@use words.fns ::load#w_emit
 //@use words.fns ::load#w_nulbytestr
 //@use words.fns ::load#w_cstr
+//@use words.fns ::load#w_hex_tobitstr
 // the data words of the word table (Rword)
 //@use words.fns ::load#w_u8
 //@use words.fns ::load#w_u8_bang
